@@ -91,6 +91,15 @@ class GarbageCollector:
         if not metadata:
             return stats
 
+        # The version hint is only a hint for READERS: when it names a metadata
+        # file that does not exist, refresh() falls back to the newest file it
+        # can find - an OLDER version, from which everything committed since
+        # looks unreachable. Deleting on that view destroys the newest
+        # snapshots for good. A lost hint is fine (the scan finds the latest
+        # version); a hint that points at a missing file means the table's
+        # current metadata is gone: abort (fail closed).
+        self._require_hinted_metadata_present()
+
         logger.info(f"Starting garbage collection for {self.table_path}")
 
         # 2. Identify all reachable files. ANY failure here aborts the whole
@@ -166,6 +175,26 @@ class GarbageCollector:
 
         logger.info(f"Garbage collection complete. Deleted: {stats}")
         return stats
+
+    def _require_hinted_metadata_present(self) -> None:
+        """Abort if the version hint names a metadata file that is missing."""
+        mm = self.metadata_manager
+        try:
+            hinted = mm._read_version_hint()
+            missing = hinted is not None and not self.storage.exists(
+                f"{mm.metadata_path}/{hinted[1]}"
+            )
+        except Exception as e:
+            raise GarbageCollectionAborted(
+                f"Aborting GC: cannot verify the current metadata version: {e}. "
+                f"Nothing was deleted."
+            ) from e
+        if missing:
+            raise GarbageCollectionAborted(
+                f"Aborting GC: the version hint names metadata file {hinted[1]!r}, which does "
+                f"not exist. The table's current metadata is missing; collecting against an "
+                f"older version would delete every file committed since. Nothing was deleted."
+            )
 
     def _load_inflight_protection(self, inflight_timeout_ms: int) -> Set[str]:
         """Collect paths protected by fresh in-flight markers.
